@@ -272,3 +272,62 @@ func ZZ_C03_migrationMix() {
 	nondet.Reach("C03.mix.adopted-replaced", adoptedDeleted >= 1)
 	nondet.Reach("C03.mix.adopted-available-waits", availableDeleted == 0 && len(res.PodsToDelete) >= 1 && adopted[0] && cats[0] == zzOutdatedAvailable)
 }
+
+// ZZ_C03_stuckKinds: "nodes whose pod is stuck unscheduled or terminating are tolerated up to
+// maxPodSchedulerFailure" — the two kinds together, not each on its own: one node with a pod
+// unscheduled for more than ten minutes, one with a pod terminating past its grace period, and two
+// (thorough: three) further nodes over {outdated available, outdated unavailable, up to date}.
+func ZZ_C03_stuckKinds() {
+	extra := 2
+	if nondet.Thorough() {
+		extra = 3
+	}
+	n := 2 + extra
+	ds := zzDaemonset(map[string]string{})
+	ds.Spec.Strategy.RollingUpdate.MaxUnavailable = zzIntOrString("maxUnavailable", n)
+	ds.Spec.Strategy.RollingUpdate.MaxPodSchedulerFailure = zzIntOrString("maxSchedFail", 3)
+	rs := zzReplicaSet()
+	cats := []int{zzStuck, zzStuck}
+	for i := 0; i < extra; i++ {
+		switch nondet.String("cat"+strconv.Itoa(i), "outdated-available", "outdated-unavailable", "current") {
+		case "outdated-available":
+			cats = append(cats, zzOutdatedAvailable)
+		case "outdated-unavailable":
+			cats = append(cats, zzOutdatedUnavailable)
+		default:
+			cats = append(cats, zzUpToDateAvailable)
+		}
+	}
+	params, items := zzParamsV(ds, rs, cats, true)
+	stuckHash := nondet.String("stuckHash", zzHashNew, zzHashOld)
+	params.PodByNodeName[items[0]] = zzCategoryPod(0, zzStuck, zzVariants{stuckTerminating: false, stuckHash: stuckHash})
+	params.PodByNodeName[items[1]] = zzCategoryPod(1, zzStuck, zzVariants{stuckTerminating: true, stuckHash: stuckHash, terminatingReady: 0})
+	res, err := ManageDeployment(fakeapi.New(), ds, params, metav1.Now())
+	nondet.Assert("C03.kinds.noerror", err == nil)
+	if err != nil {
+		return
+	}
+	maxUnavailable := int(ds.Spec.Strategy.RollingUpdate.MaxUnavailable.IntVal)
+	maxSchedFail := int(ds.Spec.Strategy.RollingUpdate.MaxPodSchedulerFailure.IntVal)
+	withoutAvailable := 0
+	for _, c := range cats {
+		if c != zzUpToDateAvailable && c != zzOutdatedAvailable {
+			withoutAvailable++
+		}
+	}
+	tolerated := nondet.IteInt(2 <= maxSchedFail, 2, maxSchedFail) // two stuck nodes in all
+	u := withoutAvailable - tolerated
+	budget := nondet.IteInt(maxUnavailable-u >= 0, maxUnavailable-u, 0)
+	availableDeleted := 0
+	for _, ni := range res.PodsToDelete {
+		idx := zzIndexOf(items, ni)
+		if idx >= 0 && cats[idx] == zzOutdatedAvailable {
+			availableDeleted++
+		}
+	}
+	nondet.Assert("C03.kinds.budget", availableDeleted <= budget)
+	nondet.Assert("C03.kinds.total", len(res.PodsToDelete) <= maxUnavailable)
+	nondet.Observe("nDelete", len(res.PodsToDelete))
+	nondet.Reach("C03.kinds.one-tolerated-one-not", maxSchedFail == 1 && availableDeleted == 0 && maxUnavailable >= 1)
+	nondet.Reach("C03.kinds.both-tolerated", maxSchedFail >= 2 && availableDeleted >= 1)
+}
